@@ -301,6 +301,11 @@ class Lab:
             p.network.muted.add(peer)
             p.network.isolated.add(peer)
             self.puppet = sim.Puppet(p, as_side=peer)
+        elif state == "evilcert":
+            # hostile server: its own (self-signed) certificate with many long subjectAltNames
+            cert, key = evil_certificate(spec.get("sans", 1), spec.get("san_len", 5))
+            kw["server_config"] = {"certificate": cert, "private_key": key, "certificate_chain": []}
+            self.pair = p = sim.Pair(seed, **kw)
         elif state == "rewrite":
             # real handshake in which the hidden server's flight is rewritten (client subject)
             self.hp = sim.HalfPair.create(seed, puppet_side=peer, rewrite=rewrite, **kw)
@@ -431,6 +436,21 @@ class Lab:
         if len(payload) < 4:
             kw["pn_len"] = 4
         self.puppet.send_frames(epoch, payload, **kw)
+
+
+def evil_certificate(nsans, ln):
+    import datetime
+    from cryptography import x509
+    from cryptography.hazmat.primitives.asymmetric import ed25519
+    from cryptography.x509.oid import NameOID
+    key = ed25519.Ed25519PrivateKey.generate()
+    name = x509.Name([x509.NameAttribute(NameOID.COMMON_NAME, "evil")])
+    sans = [x509.DNSName(("a%03d" % i) + "b" * ln + ".example") for i in range(nsans)]
+    cert = (x509.CertificateBuilder().subject_name(name).issuer_name(name).public_key(key.public_key())
+            .serial_number(1).not_valid_before(datetime.datetime(2020, 1, 1))
+            .not_valid_after(datetime.datetime(2040, 1, 1))
+            .add_extension(x509.SubjectAlternativeName(sans), critical=False).sign(key, None))
+    return cert, key
 
 
 def exc_site(exc):
@@ -1203,6 +1223,7 @@ WITNESSES = {
     "transmit_before_path": {"spec": spec("server", "firstflight", 30), "ops": [["dg", "00"]]},
     "ncid": _w_ncid(),
     "ack_ranges": _w_ack(),
+    "close_reason": {"spec": spec("client", "evilcert", 505, sans=14, san_len=50), "ops": [["run"]]},
 }
 
 
@@ -1403,6 +1424,12 @@ def run_tls(ctx, rng, stats, report):
                 case["spec"].pop("rewrite", None)
                 case["flight_mutation"] = name
                 report(probs, case, "tls-flight:%s%s" % (name, "/rsa" if cert else ""))
+        for nsans, ln in ((1, 5), (5, 30), (14, 50), (25, 60), (40, 200)):
+            case = {"spec": spec("client", "evilcert", 505, sans=nsans, san_len=ln), "ops": [["run"]],
+                    "variant": "cert:%d_sans_of_%d" % (nsans, ln)}
+            _, probs = run_ops(case)
+            stats["tls_messages"] += 1
+            report(probs, case, "tls-certificate-sans:%dx%d" % (nsans, ln))
         for name, (t, body) in post_handshake_messages(rng).items():
             for side in ("client", "server"):
                 case = {"spec": spec(side, "connected", 503), "ops": [["tls", "1rtt", t, body.hex()]], "variant": "post:" + name}
